@@ -14,18 +14,18 @@ def IH (e : BEnv) (Γ : Ctx) (fac : Factory) (n : Nat) : Prop :=
     ∃ kvs, encModelF Γ fac {} n v = .ok (.obj kvs) ∧ kvKeys kvs = encKeys Γ fac v ∧ (J.obj kvs).native = true ∧
       ∀ cfg : ParserConfig, bindDataclassF e Γ n cfg c (.obj kvs) = ND.pure v
 
-/-! ### facts packed in `varOKj` -/
+/-! ### facts packed in `varTyped` -/
 
-theorem varOKj_facts {var : XmlVar} (h : varOKj var = true) :
+theorem varTyped_facts {var : XmlVar} (h : varTyped var = true) :
     var.isAttributes = false ∧ var.isWildcard = false ∧ var.isElements = false ∧ var.anyType = false ∧
     var.isClazzUnion = false ∧ var.elements = [] ∧ var.tokens = false := by
-  simp only [varOKj, Bool.and_eq_true, Bool.not_eq_true', List.isEmpty_iff] at h
+  simp only [varTyped, Bool.and_eq_true, Bool.not_eq_true', List.isEmpty_iff] at h
   obtain ⟨⟨⟨⟨⟨⟨⟨⟨h1, h2⟩, h3⟩, h4⟩, h5⟩, h6⟩, h7⟩, _⟩, _⟩ := h
   exact ⟨h1, h2, h3, h4, h5, h6, h7⟩
 
-theorem varOKj_types {var : XmlVar} (h : varOKj var = true) :
+theorem varTyped_types {var : XmlVar} (h : varTyped var = true) :
     (var.clazz = none ∧ ∃ t, var.types = [.prim t] ∧ t ≠ .qname) ∨ (∃ k, var.clazz = some k ∧ var.types = [.cls k]) := by
-  simp only [varOKj, Bool.and_eq_true] at h
+  simp only [varTyped, Bool.and_eq_true] at h
   have ht := h.1.2
   split at ht
   · rename_i t hc hty
@@ -36,9 +36,9 @@ theorem varOKj_types {var : XmlVar} (h : varOKj var = true) :
     exact Or.inr ⟨k, hc, hty⟩
   · cases ht
 
-theorem varOKj_wrapper {var : XmlVar} (h : varOKj var = true) (w : Str) (hw : wrapperName var.toVarCore = some w) :
+theorem varTyped_wrapper {var : XmlVar} (h : varTyped var = true) (w : Str) (hw : wrapperName var.toVarCore = some w) :
     var.listElement = true ∧ var.localName ≠ w := by
-  simp only [varOKj, Bool.and_eq_true] at h
+  simp only [varTyped, Bool.and_eq_true] at h
   have ht := h.2
   rw [hw] at ht
   simpa using ht
@@ -50,49 +50,99 @@ theorem classOKj_facts {ci : ClassInfo} {m : XmlMeta} (h : classOKj ci m = true)
     ((allVars m).map (fun v => keyOf v.toVarCore)).Nodup ∧
     (∀ a ∈ allVars m, ∀ b ∈ allVars m,
       (b.localName = keyOf a.toVarCore ∨ wrapperName b.toVarCore = some (keyOf a.toVarCore)) → b = a) ∧
-    kQName ∉ (allVars m).map (fun v => keyOf v.toVarCore) ∧
+    markersOK ci.id (allVars m) = true ∧
     ((allVars m).map (·.name)).Nodup ∧
     (ci.fields.map (·.name)).Nodup ∧
-    (∀ f ∈ ci.fields, ∃ var ∈ allVars m, var.name = f.name ∧ var.init = f.init) ∧
-    kChildren ∉ (allVars m).map (fun v => keyOf v.toVarCore) := by
-  simp only [classOKj, Bool.and_eq_true, List.all_eq_true, decide_eq_true_eq, Bool.not_eq_true',
+    (∀ f ∈ ci.fields, ∃ var ∈ allVars m, var.name = f.name ∧ var.init = f.init) := by
+  simp only [classOKj, Bool.and_eq_true, List.all_eq_true, decide_eq_true_eq,
     Bool.or_eq_true, bne_iff_ne, ne_eq, List.any_eq_true, beq_iff_eq] at h
-  obtain ⟨⟨⟨⟨⟨⟨⟨h1, h2⟩, h3⟩, h4⟩, h4c⟩, h5⟩, h6⟩, h7⟩ := h
-  refine ⟨h1, h2, ?_, ?_, h5, h6, ?_, ?_⟩
-  rotate_right
-  · intro hmem
-    have : ((allVars m).map (fun v => keyOf v.toVarCore)).contains kChildren = true := by
-      simpa using hmem
-    rw [this] at h4c
-    cases h4c
+  obtain ⟨⟨⟨⟨⟨⟨h1, h2⟩, h3⟩, h4⟩, h5⟩, h6⟩, h7⟩ := h
+  refine ⟨h1, h2, ?_, h4, h5, h6, ?_⟩
   · intro a ha b hb hor
     rcases h3 a ha b hb with ⟨hn1, hn2⟩ | heq
     · rcases hor with h | h
       · exact absurd h hn1
       · exact absurd h hn2
     · exact heq
-  · intro hmem
-    have : ((allVars m).map (fun v => keyOf v.toVarCore)).contains kQName = true := by
-      simpa using hmem
-    rw [this] at h4
-    cases h4
   · intro f hf
     obtain ⟨var, hvar, hname, hinit⟩ := h7 f hf
     exact ⟨var, hvar, hname, hinit⟩
 
+/-- a user class emits neither of the marker keys -/
+theorem markers_user {c : ClassId} {vars : List XmlVar} (h : markersOK c vars = true) (hc : c ≠ anyId) :
+    kQName ∉ vars.map (fun v => keyOf v.toVarCore) ∧ kChildren ∉ vars.map (fun v => keyOf v.toVarCore) := by
+  simp only [markersOK, hc, if_false, Bool.and_eq_true, Bool.not_eq_true'] at h
+  constructor
+  · intro hmem
+    have : (vars.map (fun v => keyOf v.toVarCore)).contains kQName = true := by simpa using hmem
+    rw [this] at h; cases h.1
+  · intro hmem
+    have : (vars.map (fun v => keyOf v.toVarCore)).contains kChildren = true := by simpa using hmem
+    rw [this] at h; cases h.2
+
+/-- the generic class emits only its own keys, and its two required keys come from fields whose
+values are never `None` -/
+theorem markers_any {vars : List XmlVar} (h : markersOK anyId vars = true) :
+    (∀ k ∈ vars.map (fun v => keyOf v.toVarCore), k ∈ anyKeys) ∧
+    (∀ k ∈ anyRequired, ∃ v ∈ vars, keyOf v.toVarCore = k ∧ (v.listElement = true ∨ v.isAttributes = true)) := by
+  simp only [markersOK, if_true, Bool.and_eq_true, List.all_eq_true, List.any_eq_true, beq_iff_eq,
+    Bool.or_eq_true] at h
+  constructor
+  · intro k hk
+    have := h.1 k hk
+    simpa using this
+  · intro k hk
+    obtain ⟨v, hv, hkv, hor⟩ := h.2 k hk
+    exact ⟨v, hv, hkv, hor⟩
+
+theorem valOptStr_optStrVal (q : Option Str) : valOptStr (optStrVal q) = some q := by
+  cases q <;> rfl
+
+theorem genericView_any (q t tl : Option Str) (a : List (QN × Str)) (cs : List Val) :
+    genericView (.obj anyId [(kQName, optStrVal q), (kText, optStrVal t), (kTail, optStrVal tl),
+      (kChildren, .list cs), (kAttributes, .attrs a)]) = .ok (.any q t tl a cs) := by
+  cases q <;> cases t <;> cases tl <;> rfl
+
 theorem valOKj_unpack {e : BEnv} {Γ : Ctx} {fac : Factory} {n : Nat} {c : ClassId} {v : Val}
     (h : valOKj e Γ fac (n + 1) c v = true) :
-    ∃ fs ci m, v = .obj c fs ∧ c ≠ anyId ∧ c ≠ derivedId ∧ Γ.find c = some ci ∧ metaOf Γ c = .ok m ∧
-      classOKj ci m = true ∧ fs.map (·.1) = ci.fields.map (·.name) ∧
+    ∃ fs ci m, asObject v = some (c, fs) ∧ genericView (.obj c fs) = .ok v ∧ c ≠ derivedId ∧
+      isAnyV v = decide (c = anyId) ∧
+      Γ.find c = some ci ∧ metaOf Γ c = .ok m ∧
+      classOKj ci m = true ∧ ci.id = c ∧ fs.map (·.1) = ci.fields.map (·.name) ∧
       (∀ var ∈ allVars m, ∃ x, kvGet fs var.name = some x ∧
         valueOKj (valOKj e Γ fac n) Γ fac var x = true ∧ (var.init = true ∨ fixedOK e var x = true)) ∧
       (∀ kv ∈ fs, ∀ f ∈ ci.fields, f.name = kv.1 →
         (if f.init then keptBy fac kv.2 || defaultIs f .none else defaultIs f kv.2) = true) := by
-  cases v with
-  | obj c' fs =>
-    simp only [valOKj, Bool.and_eq_true, beq_iff_eq, bne_iff_ne, ne_eq] at h
-    obtain ⟨⟨⟨hc, ha⟩, hd⟩, hrest⟩ := h
+  unfold valOKj at h
+  cases hobj : asObject v with
+  | none => simp [hobj] at h
+  | some cf =>
+    obtain ⟨c', fs⟩ := cf
+    simp only [hobj, Bool.and_eq_true, beq_iff_eq, bne_iff_ne, ne_eq] at h
+    obtain ⟨⟨⟨hc, hd⟩, hany⟩, hrest⟩ := h
     subst hc
+    have hgv : genericView (.obj c' fs) = .ok v := by
+      cases v with
+      | obj c'' fs'' =>
+        simp only [asObject, Option.some.injEq, Prod.mk.injEq] at hobj
+        obtain ⟨h1, h2⟩ := hobj
+        subst h1; subst h2
+        have hne : c'' ≠ anyId := by
+          intro heq
+          simp [heq, isAnyV] at hany
+        simp [genericView, hne, hd]
+      | any q t tl a cs =>
+        simp only [asObject, Option.some.injEq, Prod.mk.injEq] at hobj
+        obtain ⟨h1, h2⟩ := hobj
+        subst h1; subst h2
+        exact genericView_any q t tl a cs
+      | derived q x t =>
+        simp only [asObject, Option.some.injEq, Prod.mk.injEq] at hobj
+        exact absurd hobj.1.symm hd
+      | none => simp [asObject] at hobj
+      | prim p => simp [asObject] at hobj
+      | list xs => simp [asObject] at hobj
+      | attrs a => simp [asObject] at hobj
     cases hfind : Γ.find c' with
     | none => simp [hfind] at hrest
     | some ci =>
@@ -100,8 +150,8 @@ theorem valOKj_unpack {e : BEnv} {Γ : Ctx} {fac : Factory} {n : Nat} {c : Class
       | error err => simp [hfind, hmeta] at hrest
       | ok m =>
         simp only [hfind, hmeta, Bool.and_eq_true, beq_iff_eq, List.all_eq_true, Bool.or_eq_true, bne_iff_ne, ne_eq] at hrest
-        obtain ⟨⟨⟨hcl, hnames⟩, hvars⟩, hfields⟩ := hrest
-        refine ⟨fs, ci, m, rfl, ha, hd, rfl, rfl, hcl, hnames, ?_, ?_⟩
+        obtain ⟨⟨⟨⟨hcl, hid⟩, hnames⟩, hvars⟩, hfields⟩ := hrest
+        refine ⟨fs, ci, m, rfl, hgv, hd, hany, rfl, rfl, hcl, hid, hnames, ?_, ?_⟩
         · intro var hvar
           have := hvars var hvar
           cases hget : kvGet fs var.name with
@@ -113,12 +163,6 @@ theorem valOKj_unpack {e : BEnv} {Γ : Ctx} {fac : Factory} {n : Nat} {c : Class
           rcases hfields kv hkv f hf with hne | hok
           · exact absurd hname hne
           · exact hok
-  | none => simp [valOKj] at h
-  | prim p => simp [valOKj] at h
-  | list xs => simp [valOKj] at h
-  | any q t tl a cs => simp [valOKj] at h
-  | derived q x t => simp [valOKj] at h
-  | attrs a => simp [valOKj] at h
 
 theorem valOKj_succ {e : BEnv} {Γ : Ctx} {fac : Factory} {n : Nat} {c : ClassId} {v : Val}
     (h : valOKj e Γ fac n c v = true) : ∃ n', n = n' + 1 := by
@@ -126,10 +170,11 @@ theorem valOKj_succ {e : BEnv} {Γ : Ctx} {fac : Factory} {n : Nat} {c : ClassId
   | zero => simp [valOKj] at h
   | succ n' => exact ⟨n', rfl⟩
 
-theorem encKeys_sub {Γ : Ctx} {fac : Factory} {c : ClassId} {fs : List (Str × Val)} {m : XmlMeta}
-    (hmeta : metaOf Γ c = .ok m) : ∀ k ∈ encKeys Γ fac (.obj c fs), k ∈ (allVars m).map (fun v => keyOf v.toVarCore) := by
+theorem encKeys_sub {Γ : Ctx} {fac : Factory} {v : Val} {c : ClassId} {fs : List (Str × Val)} {m : XmlMeta}
+    (hobj : asObject v = some (c, fs)) (hmeta : metaOf Γ c = .ok m) :
+    ∀ k ∈ encKeys Γ fac v, k ∈ (allVars m).map (fun v => keyOf v.toVarCore) := by
   intro k hk
-  simp only [encKeys, hmeta, List.mem_filterMap] at hk
+  simp only [encKeys, hobj, hmeta, List.mem_filterMap] at hk
   obtain ⟨var, hvar, hsome⟩ := hk
   rw [List.mem_map]
   refine ⟨var, hvar, ?_⟩
@@ -144,9 +189,9 @@ theorem encKeys_sub {Γ : Ctx} {fac : Factory} {c : ClassId} {fs : List (Str × 
 /-! ### one item -/
 
 theorem bindItem_null (e : BEnv) (rec : Rec) (Γ : Ctx) (cfg : ParserConfig) (m : XmlMeta) (var : XmlVar)
-    (hv : varOKj var = true) (hd : defaultNone var = true) :
+    (hv : varTyped var = true) (hd : defaultNone var = true) :
     bindItemWith e rec Γ cfg m var .null = ND.pure .none := by
-  obtain ⟨h1, h2, h3, h4, _, _, h7⟩ := varOKj_facts hv
+  obtain ⟨h1, h2, h3, h4, _, _, h7⟩ := varTyped_facts hv
   have h2' : var.toVarCore.isWildcard = false := h2
   have h4' : var.toVarCore.anyType = false := h4
   have h7' : var.toVarCore.tokens = false := h7
@@ -163,14 +208,14 @@ theorem bindItem_null (e : BEnv) (rec : Rec) (Γ : Ctx) (cfg : ParserConfig) (m 
   | other => rw [hdef] at hd; cases hd
 
 theorem bindItem_prim (e : BEnv) (rec : Rec) (Γ : Ctx) (cfg : ParserConfig) (m : XmlMeta) (var : XmlVar)
-    (hv : varOKj var = true) (p : PVal) (ht : var.types = [.prim (pvalType p)]) :
+    (hv : varTyped var = true) (p : PVal) (ht : var.types = [.prim (pvalType p)]) :
     bindItemWith e rec Γ cfg m var (encPrim p) = ND.pure (.prim p) := by
-  obtain ⟨h1, h2, h3, h4, _, _, h7⟩ := varOKj_facts hv
+  obtain ⟨h1, h2, h3, h4, _, _, h7⟩ := varTyped_facts hv
   have h2' : var.toVarCore.isWildcard = false := h2
   have h4' : var.toVarCore.anyType = false := h4
   have h7' : var.toVarCore.tokens = false := h7
   have hq : pvalType p ≠ .qname := by
-    rcases varOKj_types hv with ⟨_, t, hty, hne⟩ | ⟨k, _, hty⟩
+    rcases varTyped_types hv with ⟨_, t, hty, hne⟩ | ⟨k, _, hty⟩
     · rw [ht] at hty
       injection hty with h _
       injection h with h
@@ -243,25 +288,29 @@ theorem bindBest_unique (rec : Rec) (Γ : Ctx) (cfg : ParserConfig) (ordered : B
   cases ordered <;> simp [ND.run, ND.pure, maxScore, ND.choose] <;> rfl
 
 theorem bindItem_obj (e : BEnv) (Γ : Ctx) (fac : Factory) (n : Nat) (ih : IH e Γ fac n) (cfg : ParserConfig)
-    (m : XmlMeta) (var : XmlVar) (hv : varOKj var = true) (k k' : ClassId) (fs' : List (Str × Val))
+    (m : XmlMeta) (var : XmlVar) (hv : varTyped var = true) (k k' : ClassId) (fs' : List (Str × Val))
     (hc : var.clazz = some k) (hok : valOKj e Γ fac n k' (.obj k' fs') = true)
     (hpool : poolOKj Γ fac k (.obj k' fs') = true) :
     ∃ kvs, encModelF Γ fac {} n (.obj k' fs') = .ok (.obj kvs) ∧ (J.obj kvs).native = true ∧
       bindItemWith e (bindDataclassF e Γ n) Γ cfg m var (.obj kvs) = ND.pure (.obj k' fs') := by
   obtain ⟨kvs, henc, hkeys, hnat, hdec⟩ := ih k' _ hok
   refine ⟨kvs, henc, hnat, ?_⟩
-  obtain ⟨h1, h2, h3, h4, h5, h6, h7⟩ := varOKj_facts hv
+  obtain ⟨h1, h2, h3, h4, h5, h6, h7⟩ := varTyped_facts hv
   obtain ⟨n', hn⟩ := valOKj_succ hok
   subst hn
-  obtain ⟨fs, ci, m', hveq, _, _, _, hmeta, hcl, _, _, _⟩ := valOKj_unpack hok
+  obtain ⟨fs, ci, m', hobj, _, _, hisany, _, hmeta, hcl, hid, _, _, _⟩ := valOKj_unpack hok
+  have hk'ne : k' ≠ anyId := by
+    intro heq
+    simp [isAnyV, heq] at hisany
+  have hmk := markers_user (classOKj_facts hcl).2.2.2.1 (by rw [hid]; exact hk'ne)
   have hq : kQName ∉ kvKeys kvs := by
     rw [hkeys]
     intro hmem
-    exact (classOKj_facts hcl).2.2.2.1 (encKeys_sub hmeta _ hmem)
+    exact hmk.1 (encKeys_sub hobj hmeta _ hmem)
   have hch : kChildren ∉ kvKeys kvs := by
     rw [hkeys]
     intro hmem
-    exact (classOKj_facts hcl).2.2.2.2.2.2.2 (encKeys_sub hmeta _ hmem)
+    exact hmk.2 (encKeys_sub hobj hmeta _ hmem)
   have hany : isGeneric kvs anyRequired anyKeys = false :=
     isGeneric_false_of_not_mem kvs anyRequired anyKeys kChildren (by simp [anyRequired]) hch
   have hder : isGeneric kvs derivedRequired derivedKeys = false :=
@@ -287,7 +336,7 @@ def isNoneV : Val → Bool
   | _ => false
 
 theorem item_rt (e : BEnv) (Γ : Ctx) (fac : Factory) (n : Nat) (ih : IH e Γ fac n) (cfg : ParserConfig)
-    (m : XmlMeta) (var : XmlVar) (hv : varOKj var = true) (x : Val)
+    (m : XmlMeta) (var : XmlVar) (hv : varTyped var = true) (x : Val)
     (hx : itemOKj (valOKj e Γ fac n) Γ fac var x = true) :
     ∃ j, encElemWith (encModelF Γ fac {} n) x = .ok j ∧ j.isNull = isNoneV x ∧ j.isArr = false ∧ j.native = true ∧
       bindItemWith e (bindDataclassF e Γ n) Γ cfg m var j = ND.pure x := by
@@ -377,15 +426,15 @@ theorem bindValue_nonarr (e : BEnv) (rec : Rec) (Γ : Ctx) (cfg : ParserConfig) 
   | arr xs => simp [J.isArr] at hj
   | _ => rfl
 
-theorem value_rt (e : BEnv) (Γ : Ctx) (fac : Factory) (n : Nat) (ih : IH e Γ fac n) (cfg : ParserConfig)
-    (m : XmlMeta) (var : XmlVar) (hv : varOKj var = true) (x : Val)
-    (hx : valueOKj (valOKj e Γ fac n) Γ fac var x = true) :
+theorem value_rt_typed (e : BEnv) (Γ : Ctx) (fac : Factory) (n : Nat) (ih : IH e Γ fac n) (cfg : ParserConfig)
+    (m : XmlMeta) (var : XmlVar) (hv : varTyped var = true) (x : Val)
+    (hx : typedValueOKj (valOKj e Γ fac n) Γ fac var x = true) :
     ∃ j, encVarWith fac (encModelF Γ fac {} n) var x = .ok j ∧ j.isNull = isNoneV x ∧ j.native = true ∧
       varMatches (keyOf var.toVarCore) j var = true ∧
       ∃ j', unwrapValue var j = .ok j' ∧ (j'.isNull && var.listElement) = false ∧
         bindValueWith e (bindDataclassF e Γ n) Γ cfg m var j' = ND.pure x := by
-  obtain ⟨h1, h2, h3, h4, h5, h6, h7⟩ := varOKj_facts hv
-  unfold valueOKj at hx
+  obtain ⟨h1, h2, h3, h4, h5, h6, h7⟩ := varTyped_facts hv
+  unfold typedValueOKj at hx
   by_cases hl : var.listElement = true
   · -- a repeating element
     simp only [hl, if_true] at hx
@@ -424,7 +473,7 @@ theorem value_rt (e : BEnv) (Γ : Ctx) (fac : Factory) (n : Nat) (ih : IH e Γ f
         · simp [varMatches, keyOf, hw, J.isArr, J.isNull, varIsList, hl]
         · simp [unwrapValue, hw]
       | some w =>
-        have hne := (varOKj_wrapper hv w hw).2
+        have hne := (varTyped_wrapper hv w hw).2
         refine ⟨.obj [(var.localName, .arr js)], ?_, rfl, ?_, ?_, .arr js, ?_, by simp [J.isNull], hbind⟩
         · simp only [encVarWith, hw, hcore, Except.map, fac_apply_single]
         · have hnl : J.nativeList js = true := by simpa only [J.native] using hnat
@@ -443,7 +492,7 @@ theorem value_rt (e : BEnv) (Γ : Ctx) (fac : Factory) (n : Nat) (ih : IH e Γ f
     have hw : wrapperName var.toVarCore = none := by
       cases hw : wrapperName var.toVarCore with
       | none => rfl
-      | some w => have := (varOKj_wrapper hv w hw).1; rw [hl'] at this; cases this
+      | some w => have := (varTyped_wrapper hv w hw).1; rw [hl'] at this; cases this
     have hitem : itemOKj (valOKj e Γ fac n) Γ fac var x = true := by
       cases x with
       | list xs => simp at hx
@@ -466,6 +515,245 @@ theorem value_rt (e : BEnv) (Γ : Ctx) (fac : Factory) (n : Nat) (ih : IH e Γ f
     | any q t tl a cs => simp [itemOKj] at hitem
     | derived q y t => simp [itemOKj] at hitem
     | attrs a => simp [itemOKj] at hitem
+
+/-! ### an `xs:anyAttribute` map -/
+
+theorem nativePairs_strs (m : List (Str × Str)) : J.nativePairs (m.map fun kv => (kv.1, J.str kv.2)) = true := by
+  induction m with
+  | nil => rfl
+  | cons kv t ih => simp only [List.map_cons, J.nativePairs, J.native, ih, Bool.and_self]
+
+theorem mapM_strs (f : Str × J → Option (Str × Str)) (hf : ∀ k s, f (k, .str s) = some (k, s))
+    (m : List (Str × Str)) : (m.map fun kv => (kv.1, J.str kv.2)).mapM f = some m := by
+  induction m with
+  | nil => rfl
+  | cons kv t ih =>
+    rw [List.map_cons, List.mapM_cons, ih, hf]
+    rfl
+
+theorem value_rt_attrs (e : BEnv) (Γ : Ctx) (fac : Factory) (n : Nat) (cfg : ParserConfig)
+    (m : XmlMeta) (var : XmlVar) (hv : varAttrs var = true) (x : Val) (hx : attrsValueOKj x = true) :
+    ∃ j, encVarWith fac (encModelF Γ fac {} n) var x = .ok j ∧ j.isNull = isNoneV x ∧ j.native = true ∧
+      varMatches (keyOf var.toVarCore) j var = true ∧
+      ∃ j', unwrapValue var j = .ok j' ∧ (j'.isNull && var.listElement) = false ∧
+        bindValueWith e (bindDataclassF e Γ n) Γ cfg m var j' = ND.pure x := by
+  simp only [varAttrs, Bool.and_eq_true, Bool.not_eq_true', Option.isNone_iff_eq_none] at hv
+  obtain ⟨⟨⟨ha, hl⟩, ht⟩, hw⟩ := hv
+  cases x with
+  | attrs a =>
+    have hnd : (a.map (·.1)).Nodup := by simpa [attrsValueOKj] using hx
+    refine ⟨.obj (a.map fun kv => (kv.1, J.str kv.2)), ?_, rfl, ?_, ?_, .obj (a.map fun kv => (kv.1, J.str kv.2)), ?_, ?_, ?_⟩
+    · simp [encVarWith, hw, encCoreWith, encItemWith]
+    · simp only [J.native, Bool.and_eq_true, decide_eq_true_eq, List.map_map, Function.comp_def]
+      exact ⟨hnd, nativePairs_strs a⟩
+    · simp [varMatches, keyOf, hw, J.isArr, J.isNull, varIsList, hl, ht]
+    · simp [unwrapValue, hw]
+    · simp [J.isNull]
+    · unfold bindValueWith
+      simp only [ha, if_true, bindAttributes]
+      rw [mapM_strs _ (fun k s => rfl) a]
+      rfl
+  | none => simp [attrsValueOKj] at hx
+  | prim p => simp [attrsValueOKj] at hx
+  | list xs => simp [attrsValueOKj] at hx
+  | obj c fs => simp [attrsValueOKj] at hx
+  | any q t tl b cs => simp [attrsValueOKj] at hx
+  | derived q y t => simp [attrsValueOKj] at hx
+
+/-! ### a wildcard field -/
+
+theorem varWild_facts {var : XmlVar} (h : varWild var = true) :
+    var.isWildcard = true ∧ var.isAttributes = false ∧ var.isElements = false ∧ var.tokens = false ∧
+    wrapperName var.toVarCore = none := by
+  simp only [varWild, Bool.and_eq_true, Bool.not_eq_true', Option.isNone_iff_eq_none] at h
+  obtain ⟨⟨⟨⟨⟨⟨⟨h1, h2⟩, h3⟩, _⟩, _⟩, h6⟩, _⟩, h8⟩ := h
+  exact ⟨h1, h2, h3, h6, h8⟩
+
+/-- the encoded form of a generic element is recognised as one -/
+theorem any_isGeneric {e : BEnv} {Γ : Ctx} {fac : Factory} {n : Nat} {x : Val}
+    (hok : valOKj e Γ fac (n + 1) anyId x = true) (kvs : List (Str × J)) (hkeys : kvKeys kvs = encKeys Γ fac x) :
+    isGeneric kvs anyRequired anyKeys = true := by
+  obtain ⟨fs, ci, m, hobj, _, _, _, _, hmeta, hcl, hid, _, hvars, _⟩ := valOKj_unpack hok
+  have hmk := markers_any (by have := (classOKj_facts hcl).2.2.2.1; rwa [hid] at this)
+  unfold isGeneric
+  rw [Bool.and_eq_true, List.all_eq_true, List.all_eq_true, hkeys]
+  constructor
+  · intro k hk
+    obtain ⟨v, hv, hkv, hor⟩ := hmk.2 k hk
+    obtain ⟨y, hget, hval, _⟩ := hvars v hv
+    have hkept : keptBy fac y = true := by
+      cases y with
+      | none =>
+        -- a list / map field never holds `None`
+        unfold valueOKj at hval
+        rcases hor with hl | ha
+        · by_cases hattr : v.isAttributes = true
+          · simp [hattr, attrsValueOKj] at hval
+          · by_cases hw : v.isWildcard = true
+            · simp [hattr, hw, wildValueOKj, hl] at hval
+            · simp [hattr, hw, typedValueOKj, hl] at hval
+        · simp [ha, attrsValueOKj] at hval
+      | _ => cases fac <;> rfl
+    have : k ∈ encKeys Γ fac x := by
+      simp only [encKeys, hobj, hmeta, List.mem_filterMap]
+      exact ⟨v, hv, by simp [hget, hkept, hkv]⟩
+    simpa using this
+  · intro k hk
+    have := hmk.1 k (encKeys_sub hobj hmeta k hk)
+    simpa using this
+
+theorem wildItem_rt (e : BEnv) (Γ : Ctx) (fac : Factory) (n : Nat) (ih : IH e Γ fac n) (cfg : ParserConfig)
+    (m : XmlMeta) (var : XmlVar) (hv : varWild var = true) (x : Val)
+    (hx : wildItemOKj (valOKj e Γ fac n) x = true) :
+    ∃ j, encElemWith (encModelF Γ fac {} n) x = .ok j ∧ j.isNull = isNoneV x ∧ j.isArr = false ∧ j.native = true ∧
+      bindItemWith e (bindDataclassF e Γ n) Γ cfg m var j = ND.pure x := by
+  obtain ⟨hw, ha, hel, _, _⟩ := varWild_facts hv
+  have hwc : var.toVarCore.isWildcard = true := hw
+  have hraw : ∀ j : J, j.isObj = false → bindItemWith e (bindDataclassF e Γ n) Γ cfg m var j
+      = ND.ofExcept (rawVal j) := by
+    intro j hj
+    unfold bindItemWith
+    simp only [ha, Bool.false_eq_true, if_false]
+    cases j with
+    | obj kvs => simp [J.isObj] at hj
+    | _ => simp [Xs.Dict.bindText, hel, bindTextPlain, hwc]
+  cases x with
+  | none => exact ⟨.null, rfl, rfl, rfl, rfl, by rw [hraw _ rfl]; rfl⟩
+  | prim p =>
+    have hq : pvalType p ≠ .qname := by simpa [wildItemOKj] using hx
+    refine ⟨encPrim p, rfl, ?_, ?_, ?_, ?_⟩
+    · cases p <;> rfl
+    · cases p <;> rfl
+    · cases p <;> rfl
+    · cases p with
+      | str s => rw [hraw _ rfl]; rfl
+      | int i => rw [hraw _ rfl]; rfl
+      | bool b => rw [hraw _ rfl]; rfl
+      | qname t => exact absurd rfl hq
+  | any q t tl a cs =>
+    have hok : valOKj e Γ fac n anyId (.any q t tl a cs) = true := by simpa [wildItemOKj] using hx
+    obtain ⟨kvs, henc, hkeys, hnat, hdec⟩ := ih anyId _ hok
+    obtain ⟨n', hn⟩ := valOKj_succ hok
+    subst hn
+    refine ⟨.obj kvs, henc, rfl, rfl, hnat, ?_⟩
+    unfold bindItemWith
+    simp only [ha, Bool.false_eq_true, if_false, any_isGeneric hok kvs hkeys, if_true]
+    exact hdec cfg
+  | list xs => simp [wildItemOKj] at hx
+  | obj c fs => simp [wildItemOKj] at hx
+  | derived q y t => simp [wildItemOKj] at hx
+  | attrs a => simp [wildItemOKj] at hx
+
+theorem value_rt_wild (e : BEnv) (Γ : Ctx) (fac : Factory) (n : Nat) (ih : IH e Γ fac n) (cfg : ParserConfig)
+    (m : XmlMeta) (var : XmlVar) (hv : varWild var = true) (x : Val)
+    (hx : wildValueOKj (valOKj e Γ fac n) var x = true) :
+    ∃ j, encVarWith fac (encModelF Γ fac {} n) var x = .ok j ∧ j.isNull = isNoneV x ∧ j.native = true ∧
+      varMatches (keyOf var.toVarCore) j var = true ∧
+      ∃ j', unwrapValue var j = .ok j' ∧ (j'.isNull && var.listElement) = false ∧
+        bindValueWith e (bindDataclassF e Γ n) Γ cfg m var j' = ND.pure x := by
+  obtain ⟨hwc, ha, hel, ht, hw⟩ := varWild_facts hv
+  unfold wildValueOKj at hx
+  by_cases hl : var.listElement = true
+  · simp only [hl, if_true] at hx
+    cases x with
+    | list items =>
+      simp only [List.all_eq_true] at hx
+      have hitems : ∀ y ∈ items, ∃ j, encElemWith (encModelF Γ fac {} n) y = .ok j := by
+        intro y hy
+        obtain ⟨j, hj, _⟩ := wildItem_rt e Γ fac n ih cfg m var hv y (hx y hy)
+        exact ⟨j, hj⟩
+      obtain ⟨js, hjs⟩ := mapM_exists _ items hitems
+      have hdec : ND.mapM (bindItemWith e (bindDataclassF e Γ n) Γ cfg m var) js = ND.pure items := by
+        apply nd_mapM_roundtrip _ _ items js hjs
+        intro y hy j hj
+        obtain ⟨j0, hj0, _, _, _, hd⟩ := wildItem_rt e Γ fac n ih cfg m var hv y (hx y hy)
+        rw [hj0] at hj
+        injection hj with hj
+        rw [← hj]; exact hd
+      have hnat : (J.arr js).native = true := by
+        simp only [J.native]
+        exact nativeList_of_mapM _ items js hjs (by
+          intro y hy j hj
+          obtain ⟨j0, hj0, _, _, hn, _⟩ := wildItem_rt e Γ fac n ih cfg m var hv y (hx y hy)
+          rw [hj0] at hj
+          injection hj with hj
+          rw [← hj]; exact hn)
+      refine ⟨.arr js, ?_, rfl, hnat, ?_, .arr js, ?_, ?_, ?_⟩
+      · simp only [encVarWith, hw, encCoreWith, hjs]; rfl
+      · simp [varMatches, keyOf, hw, J.isArr, varIsList, hl]
+      · simp [unwrapValue, hw]
+      · simp [J.isNull]
+      · unfold bindValueWith
+        simp only [ha, Bool.false_eq_true, if_false, hl, if_true, hdec, nd_pure_bind]
+    | none => simp at hx
+    | prim p => simp at hx
+    | obj c fs => simp at hx
+    | any q t tl a cs => simp at hx
+    | derived q y t => simp at hx
+    | attrs a => simp at hx
+  · have hl' : var.listElement = false := by simpa using hl
+    simp only [hl', Bool.false_eq_true, if_false] at hx
+    have hitem : wildItemOKj (valOKj e Γ fac n) x = true := by
+      cases x with
+      | list xs => simp at hx
+      | _ => exact hx
+    obtain ⟨j, hj, hnull, harr, hnat, hd⟩ := wildItem_rt e Γ fac n ih cfg m var hv x hitem
+    have hm : varMatches (keyOf var.toVarCore) j var = true := by
+      simp [varMatches, keyOf, hw, harr, varIsList, hl', ht]
+    have hb : bindValueWith e (bindDataclassF e Γ n) Γ cfg m var j = ND.pure x := by
+      rw [bindValue_nonarr e _ Γ cfg m var ha j harr]; exact hd
+    have hu : unwrapValue var j = .ok j := by simp [unwrapValue, hw]
+    refine ⟨j, ?_, hnull, hnat, hm, j, hu, by simp [hl'], hb⟩
+    cases x with
+    | none =>
+      simp only [encElemWith, encItemWith] at hj
+      injection hj with hj
+      subst hj; rfl
+    | prim p => simpa only [encVarWith, hw, encCoreWith, encElemWith] using hj
+    | any q t tl a cs => simpa only [encVarWith, hw, encCoreWith, encElemWith] using hj
+    | list xs => simp [wildItemOKj] at hitem
+    | obj c fs => simp [wildItemOKj] at hitem
+    | derived q y t => simp [wildItemOKj] at hitem
+    | attrs a => simp [wildItemOKj] at hitem
+
+/-! ### any var of the fragment -/
+
+theorem value_rt (e : BEnv) (Γ : Ctx) (fac : Factory) (n : Nat) (ih : IH e Γ fac n) (cfg : ParserConfig)
+    (m : XmlMeta) (var : XmlVar) (hv : varOKj var = true) (x : Val)
+    (hx : valueOKj (valOKj e Γ fac n) Γ fac var x = true) :
+    ∃ j, encVarWith fac (encModelF Γ fac {} n) var x = .ok j ∧ j.isNull = isNoneV x ∧ j.native = true ∧
+      varMatches (keyOf var.toVarCore) j var = true ∧
+      ∃ j', unwrapValue var j = .ok j' ∧ (j'.isNull && var.listElement) = false ∧
+        bindValueWith e (bindDataclassF e Γ n) Γ cfg m var j' = ND.pure x := by
+  unfold valueOKj at hx
+  simp only [varOKj, Bool.or_eq_true] at hv
+  by_cases ha : var.isAttributes = true
+  · simp only [ha, if_true] at hx
+    rcases hv with (hv | hv) | hv
+    · have := (varTyped_facts hv).1; rw [ha] at this; cases this
+    · exact value_rt_attrs e Γ fac n cfg m var hv x hx
+    · have := (varWild_facts hv).2.1; rw [ha] at this; cases this
+  · have ha' : var.isAttributes = false := by simpa using ha
+    by_cases hw : var.isWildcard = true
+    · simp only [ha', Bool.false_eq_true, if_false, hw, if_true] at hx
+      rcases hv with (hv | hv) | hv
+      · have := (varTyped_facts hv).2.1; rw [hw] at this; cases this
+      · simp [varAttrs, ha'] at hv
+      · exact value_rt_wild e Γ fac n ih cfg m var hv x hx
+    · have hw' : var.isWildcard = false := by simpa using hw
+      simp only [ha', Bool.false_eq_true, if_false, hw'] at hx
+      rcases hv with (hv | hv) | hv
+      · exact value_rt_typed e Γ fac n ih cfg m var hv x hx
+      · simp [varAttrs, ha'] at hv
+      · simp [varWild, hw'] at hv
+
+theorem varOKj_wrapper_ne {var : XmlVar} (hv : varOKj var = true) (w : Str)
+    (hw : wrapperName var.toVarCore = some w) : var.localName ≠ w := by
+  simp only [varOKj, Bool.or_eq_true] at hv
+  rcases hv with (hv | hv) | hv
+  · exact (varTyped_wrapper hv w hw).2
+  · simp [varAttrs, hw] at hv
+  · have := (varWild_facts hv).2.2.2.2; rw [hw] at this; cases this
 
 /-! ### the two loops -/
 
@@ -679,12 +967,12 @@ theorem keptBy_eq (fac : Factory) (k : Str) (j : J) (x : Val) (h : j.isNull = is
   · cases x <;> rfl
   · cases x <;> simp [keepP, keptBy, h, isNoneV]
 
-theorem keys_kept (Γ : Ctx) (fac : Factory) (recE : Val → Except Err J) (c : ClassId) (fs : List (Str × Val))
-    (m : XmlMeta) (hmeta : metaOf Γ c = .ok m)
+theorem keys_kept (Γ : Ctx) (fac : Factory) (recE : Val → Except Err J) (v : Val) (c : ClassId) (fs : List (Str × Val))
+    (m : XmlMeta) (hobj : asObject v = some (c, fs)) (hmeta : metaOf Γ c = .ok m)
     (h : ∀ var ∈ allVars m, kvGet fs var.name = some (xOf fs var) ∧
       keepP fac (pairOf fac recE fs var) = keptBy fac (xOf fs var)) :
-    kvKeys (((allVars m).map (pairOf fac recE fs)).filter (keepP fac)) = encKeys Γ fac (.obj c fs) := by
-  simp only [encKeys, hmeta]
+    kvKeys (((allVars m).map (pairOf fac recE fs)).filter (keepP fac)) = encKeys Γ fac v := by
+  simp only [encKeys, hobj, hmeta]
   generalize allVars m = vars at h
   induction vars with
   | nil => rfl
@@ -736,9 +1024,8 @@ theorem defaultIs_eq {f : FieldInfo} {x : Val} (h : defaultIs f x = true) : f.de
 
 theorem rt_step (e : BEnv) (Γ : Ctx) (fac : Factory) (n : Nat) (ih : IH e Γ fac n) : IH e Γ fac (n + 1) := by
   intro c v hok
-  obtain ⟨fs, ci, m, hv, hca, hcd, hfind, hmeta, hcl, hnames, hvars, hfields⟩ := valOKj_unpack hok
-  subst hv
-  obtain ⟨cv, cnd, cuniq, cq, cnames, cfnames, cfv, _⟩ := classOKj_facts hcl
+  obtain ⟨fs, ci, m, hobj, hgv, hcd, hisany, hfind, hmeta, hcl, hid, hnames, hvars, hfields⟩ := valOKj_unpack hok
+  obtain ⟨cv, cnd, cuniq, cmark, cnames, cfnames, cfv⟩ := classOKj_facts hcl
   have hx : ∀ var ∈ allVars m, kvGet fs var.name = some (xOf fs var) := by
     intro var hvar
     obtain ⟨x, hget, _⟩ := hvars var hvar
@@ -764,7 +1051,7 @@ theorem rt_step (e : BEnv) (Γ : Ctx) (fac : Factory) (n : Nat) (ih : IH e Γ fa
   -- the encoder
   have hpairs := encPairs_eq fac (encModelF Γ fac {} n) fs (allVars m)
     (fun var hvar => ⟨hx var hvar, (hper {} var hvar).1⟩)
-  have hkeys := keys_kept Γ fac (encModelF Γ fac {} n) c fs m hmeta (fun var hvar => ⟨hx var hvar, hkeep var hvar⟩)
+  have hkeys := keys_kept Γ fac (encModelF Γ fac {} n) v c fs m hobj hmeta (fun var hvar => ⟨hx var hvar, hkeep var hvar⟩)
   have hnd : ((((allVars m).map (pairOf fac (encModelF Γ fac {} n) fs)).filter (keepP fac)).map (·.1)).Nodup := by
     have hsub : List.Sublist ((((allVars m).map (pairOf fac (encModelF Γ fac {} n) fs)).filter (keepP fac)).map (·.1))
         (((allVars m).map (pairOf fac (encModelF Γ fac {} n) fs)).map (·.1)) :=
@@ -779,18 +1066,27 @@ theorem rt_step (e : BEnv) (Γ : Ctx) (fac : Factory) (n : Nat) (ih : IH e Γ fa
   · simp only [J.native, Bool.and_eq_true, decide_eq_true_eq]
     exact ⟨hnd, nativePairs_filter_map _ _ _ (fun var hvar => (hper {} var hvar).2.2.1)⟩
   rotate_left
-  · simp only [encModelF, asObject, encObjWith, hmeta, hpairs, Except.map, fac_apply_eq, dictOf_nodup _ hnd]
+  · simp only [encModelF, hobj, encObjWith, hmeta, hpairs, Except.map, fac_apply_eq, dictOf_nodup _ hnd]
   · intro cfg
-    have hq : kQName ∉ kvKeys (((allVars m).map (pairOf fac (encModelF Γ fac {} n) fs)).filter (keepP fac)) := by
-      rw [hkeys]
-      intro hmem
-      exact cq (encKeys_sub hmeta _ hmem)
-    have hder := keysEq_false_of_not_mem _ derivedKeys kQName (by simp [derivedKeys]) hq
+    have hder : keysEq (((allVars m).map (pairOf fac (encModelF Γ fac {} n) fs)).filter (keepP fac)) derivedKeys = false := by
+      by_cases hc : c = anyId
+      · -- the generic element: `value` is none of its keys
+        have hmk := markers_any (by have := cmark; rwa [hid, hc] at this)
+        apply keysEq_false_of_not_mem _ derivedKeys kValue (by simp [derivedKeys])
+        rw [hkeys]
+        intro hmem
+        have := hmk.1 kValue (encKeys_sub hobj hmeta _ hmem)
+        revert this; decide
+      · have hmk := markers_user (by have := cmark; rwa [hid] at this) hc
+        apply keysEq_false_of_not_mem _ derivedKeys kQName (by simp [derivedKeys])
+        rw [hkeys]
+        intro hmem
+        exact hmk.1 (encKeys_sub hobj hmeta _ hmem)
     have hloop := bindPairs_eq e (bindDataclassF e Γ n) Γ cfg m (allVars m) fac (encModelF Γ fac {} n) fs
       (allVars m) [] (by
         intro var hvar
         obtain ⟨_, _, _, hm, hrest⟩ := hper cfg var hvar
-        refine ⟨?_, hrest, ?_, fun w hw => (varOKj_wrapper (cv var hvar) w hw).2⟩
+        refine ⟨?_, hrest, ?_, fun w hw => varOKj_wrapper_ne (cv var hvar) w hw⟩
         · apply find?_unique _ _ var hvar hm
           intro b hb hbm
           exact cuniq var hvar b hb (varMatches_names hbm)
@@ -826,8 +1122,6 @@ theorem rt_step (e : BEnv) (Γ : Ctx) (fac : Factory) (n : Nat) (ih : IH e Γ fa
           simp only [hi', Bool.false_eq_true, if_false] at hfl ⊢
           right
           exact ⟨trivial, defaultIs_eq hfl⟩)
-    have hgv : genericView (.obj c fs) = .ok (.obj c fs) := by
-      simp [genericView, hca, hcd]
     simp only [bindDataclassF, bindDataclassWith, hder, Bool.false_eq_true, if_false, hmeta, hloop, nd_pure_bind,
       hcf, hgv, nd_ofExcept_ok]
 
@@ -836,5 +1130,18 @@ theorem rt_all (e : BEnv) (Γ : Ctx) (fac : Factory) : ∀ n, IH e Γ fac n := b
   induction n with
   | zero => intro c v h; simp [valOKj] at h
   | succ n ih => exact rt_step e Γ fac n ih
+
+/-- `encode(obj)` (no var) of a model instance is the instance's own encoding -/
+theorem encode_of_object (Γ : Ctx) (fac : Factory) (cfg : SerCfg) (n : Nat) {v : Val} {cf : ClassId × List (Str × Val)}
+    (h : asObject v = some cf) :
+    encode Γ fac cfg n v = encModelF Γ fac cfg n v ∧ encTopItem Γ fac cfg n v = encModelF Γ fac cfg n v := by
+  cases v with
+  | obj c fs => exact ⟨rfl, rfl⟩
+  | any q t tl a cs => exact ⟨rfl, rfl⟩
+  | derived q x t => exact ⟨rfl, rfl⟩
+  | none => simp [asObject] at h
+  | prim p => simp [asObject] at h
+  | list xs => simp [asObject] at h
+  | attrs a => simp [asObject] at h
 
 end Proofs.C04
